@@ -52,6 +52,9 @@ func parseFrame(p []byte) Event {
 		if w > maxw {
 			maxw = w
 		}
+		if strings.Contains(ln, ":frag") {
+			malformed = append(malformed, "unterminated-fragment-in-frame")
+		}
 		if m := reFill.FindStringSubmatchIndex(ln); m != nil {
 			sm := reFill.FindStringSubmatch(ln)
 			seenBar = true
